@@ -764,6 +764,7 @@ func pathIdx(sel []string) []int {
 }
 
 func main() {
+	core.SuperviseSelf("C01") // a runtime fatal error inside the code under test is a finding, not a harness error
 	r := core.Start("C01")
 	// Millions of short-lived apps. Every app owns a sync.Pool, and the runtime keeps pools (hence apps) reachable
 	// until the second GC after their last use, so a proportional GC target (GOGC) would chase its own garbage:
